@@ -128,6 +128,9 @@ func (rep *Report) nativePhase() error {
 			seenLabel := map[string]int{}
 			for _, v := range r.Stats.Violations {
 				lab, m := violationLabel(&v)
+				if os.Getenv("GOSYM_LISTVIOL") != "" {
+					fmt.Printf("  [violation] %s label=%q chooses=%v msg=%q\n", r.Spec.Name, lab, v.Chooses, v.Msg)
+				}
 				if seenLabel[lab] >= 3 {
 					continue
 				}
@@ -328,6 +331,12 @@ func (rep *Report) finish(out string, partial bool) int {
 			notes[k] += v
 		}
 		expectFail := r.Spec.Expect == "selftest-fail"
+		if os.Getenv("GOSYM_LISTVIOL") != "" && !expectFail {
+			for _, v := range st.Violations {
+				lab, _ := violationLabel(&v)
+				fmt.Printf("  [violation] %s label=%q chooses=%v msg=%q\n", r.Spec.Name, lab, v.Chooses, v.Msg)
+			}
+		}
 		if expectFail {
 			if len(st.Violations) == 0 {
 				problems = append(problems, fmt.Sprintf("%s: vacuity guard did not fail (harness or engine broken)", r.Spec.Name))
